@@ -431,3 +431,6 @@ def run(model, rep):
     _c08.rule_c(model, _Renamed(rep, {"C08.c": "C17.f-decoder-errors"}, "C17.x-"))
     _c19.rule_a(model, _Renamed(rep, {"C19.a": "C17.g-lazy-preset-init"}, "C17.x-", only=lambda s: "LazyCryptContext" in s))
     rep.minimum("C17.g-lazy-preset-init", 3)
+    # the host presets attribute locked entries to unix_disabled for text and bytes alike: its two marker sets agree (rule shared with C18.c)
+    from . import c18 as _c18
+    _c18.rule_c(model, _Renamed(rep, {"C18.c": "C17.i-disabled-markers"}, "C17.x-", only=lambda s: "_MARKER" in s or "unix_disabled.identify" in s))
